@@ -105,6 +105,7 @@ def generate(rng, tier):
             ops.append(borrow_op(caps, 0))
             _gap(rng, ops, 0.4)
         actors.append({"name": "u%d" % i, "ops": ops})
+    no_adjust = False
     if rng.random() < 0.15:
         # one context object (`lease = supply.borrow(...)`) entered by several blocks: by two
         # activities at overlapping times, or nested in one activity
@@ -117,6 +118,10 @@ def generate(rng, tier):
             return {"op": "borrow", "on": "R", "id": "b%d" % serial[0], "amounts": dict(amounts),
                     "mode": "borrow", "ctx": group, "body": body}
         if rng.random() < 0.5:
+            # (nested in one activity: it waits for the second entry while holding the first, so
+            # the supply must not shrink meanwhile - no adjuster in these scenarios; found by the
+            # thorough tier as a legitimate deadlock of the *program*)
+            no_adjust = True
             body = []
             _gap(rng, body, 0.7)
             inner = lease_op(body)
@@ -140,7 +145,7 @@ def generate(rng, tier):
                     _gap(rng, body, 0.8)
                     ops.append(lease_op(body))
                 actors.append({"name": "u%d" % len(actors), "ops": ops})
-    if kind == "resources" and rng.random() < 0.7:
+    if kind == "resources" and rng.random() < 0.7 and not no_adjust:
         ops = []
         for _ in range(rng.randint(1, 4)):
             _gap(rng, ops, 0.9)
